@@ -190,6 +190,21 @@ def header_rules(ctx):
     else:
         ctx.undecided('C14.2-length-width-follows-flag', 'writer', 'flag site / length writes not located (%d / %d)' % (len(flag_sites), len(lens)))
 
+    # the text of a new cache entry is UTF-8 (the header has no Latin-1 form): every way to the insert validates it as such
+    ctx.rule('C14.1-entries-are-utf8', 'in the header reader every path that stores a new cache entry has passed a UTF-8 conversion of the entry bytes (str::from_utf8 ...): a byte-per-character reading, right for the '
+             'legacy atom tags, turns every non-ASCII atom of a header into another atom - for every later message that refers to the entry', floor=1)
+    for XB in bodies_of_fn(ctx.P, DEC + 'parse_dist_header_with_cache')[:1]:
+        ins = [bb for bb, t in XB.calls() if (callee_of(t)[0] or '') == DEC + 'AtomCache::insert' and bb in XB.live_blocks()]
+        utf8 = set(bb for bb, t in XB.calls() if any(n.endswith('::from_utf8') or n.endswith('::from_utf8_lossy') for n in callee_names(t)))
+        if not ctx.anchor(bool(ins), DEC + 'parse_dist_header_with_cache: AtomCache::insert'):
+            continue
+        bad_ = [bb for bb in ins if not (utf8 and XB.all_paths_pass(0, utf8, to_blocks=[bb]))]
+        if bad_:
+            ctx.bad('C14.1-entries-are-utf8', 'header-reader', 'a new atom cache entry can be stored without its bytes having been read as UTF-8: a non-ASCII atom introduced through a distribution header becomes another atom',
+                    ctx.where(XB, bad_[0]), key='SHAPE:%sparse_dist_header_with_cache:entry-not-utf8' % DEC)
+        else:
+            ctx.ok('C14.1-entries-are-utf8', 'header-reader', 'every insert is behind a UTF-8 conversion of the entry text', ctx.where(XB, ins[0]))
+
 
 def cache_threading(ctx, rule):
     P = ctx.P
